@@ -15,12 +15,15 @@ import (
 	"bytes"
 	"context"
 	"crypto"
+	"crypto/ecdsa"
+	"crypto/elliptic"
 	"crypto/sha256"
 	"encoding/base64"
 	"encoding/hex"
 	"encoding/json"
 	"errors"
 	"fmt"
+	"math/big"
 	"math/rand"
 	"os"
 	"path"
@@ -40,8 +43,10 @@ import (
 	"github.com/nuts-foundation/go-did/vc"
 	"github.com/nuts-foundation/nuts-node/audit"
 	nutsCrypto "github.com/nuts-foundation/nuts-node/crypto"
+	"github.com/nuts-foundation/nuts-node/crypto/storage/spi"
 	"github.com/nuts-foundation/nuts-node/jsonld"
 	"github.com/nuts-foundation/nuts-node/storage"
+	"github.com/nuts-foundation/nuts-node/storage/orm"
 	testio "github.com/nuts-foundation/nuts-node/test/io"
 	"github.com/nuts-foundation/nuts-node/vcr/credential"
 	"github.com/nuts-foundation/nuts-node/vcr/holder"
@@ -82,6 +87,7 @@ type c01World struct {
 	t      *testing.T
 	ctx    context.Context
 	ks     *nutsCrypto.Crypto
+	backend spi.Storage
 	keys   map[string]crypto.PublicKey // key name -> public key
 	order  []string
 	hist   map[string][]c01Version
@@ -91,11 +97,24 @@ type c01World struct {
 	loader ld.DocumentLoader
 }
 
+// newKey creates a DETERMINISTIC P-256 key for the given key id (so that documents in replay files verify in a later run),
+// stores it in the real key store and links it to the key id.
 func (w *c01World) newKey(storageKid string) string {
-	_, pub, err := w.ks.New(w.ctx, nutsCrypto.StringNamingFunc(storageKid))
-	if err != nil {
+	h := sha256.Sum256([]byte("verif-c01-key:" + storageKid))
+	curve := elliptic.P256()
+	d := new(big.Int).SetBytes(h[:])
+	d.Mod(d, new(big.Int).Sub(curve.Params().N, big.NewInt(1)))
+	d.Add(d, big.NewInt(1))
+	priv := &ecdsa.PrivateKey{D: d}
+	priv.Curve = curve
+	priv.X, priv.Y = curve.ScalarBaseMult(d.Bytes())
+	if err := w.backend.SavePrivateKey(w.ctx, storageKid, priv); err != nil {
 		w.t.Fatal(err)
 	}
+	if err := w.ks.Link(w.ctx, storageKid, storageKid, "1"); err != nil {
+		w.t.Fatal(err)
+	}
+	var pub crypto.PublicKey = &priv.PublicKey
 	k, _ := jwk.FromRaw(pub)
 	tp, _ := k.Thumbprint(crypto.SHA256)
 	name := "K" + hex.EncodeToString(tp)[:8]
@@ -237,6 +256,8 @@ func c01Msg(s string) string {
 		return "jwt-bad-signature"
 	case has("verification method is not of issuer"):
 		return "vm-not-of-issuer"
+	case has("only differs by case"):
+		return "ambiguous-member"
 	case has("missing proof"):
 		return "missing-proof"
 	case has("unsupported proof type"):
@@ -329,6 +350,19 @@ func (w *c01World) ldMeasure(document any, view map[string]any, tb *c01Tables) {
 		view["proof"] = map[string]any{"shape": "malformed"}
 		return
 	}
+	known := []string{"@context", "id", "type", "issuer", "issuanceDate", "expirationDate", "credentialStatus", "credentialSubject", "proof"}
+	if _, isVP := document.(vc.VerifiablePresentation); isVP {
+		known = []string{"@context", "id", "type", "holder", "verifiableCredential", "proof"}
+	}
+	cv := false
+	for k := range sd {
+		for _, n := range known {
+			if k != n && strings.EqualFold(k, n) {
+				cv = true
+			}
+		}
+	}
+	view["caseVariant"] = cv
 	raw, has := sd["proof"]
 	ldp := proof.LDProof{}
 	if !has || raw == nil {
@@ -1059,19 +1093,21 @@ func TestVerifC01(t *testing.T) {
 	defer implF.Close()
 	o := &c01Out{ops: opsF, impl: implF, stats: map[string]int{}}
 
-	n := newC01Nodes(t)
 	if rp := os.Getenv("VERIF_REPLAY"); rp != "" {
-		n.replay(o, rp)
+		newC01Nodes(t).replay(o, rp, "")
 		return
 	}
 	if dir := os.Getenv("VERIF_CORPUS"); dir != "" {
+		// past witnesses first, each on nodes of its own (keys are deterministic, so their documents still verify)
 		files, _ := os.ReadDir(dir)
 		for _, f := range files {
 			if strings.HasSuffix(f.Name(), ".jsonl") {
-				n.replay(o, path.Join(dir, f.Name()))
+				newC01Nodes(t).replay(o, path.Join(dir, f.Name()), "corpus:"+strings.TrimSuffix(f.Name(), ".jsonl")+":")
+				o.emit(map[string]any{"op": "reset"}, "reset")
 			}
 		}
 	}
+	n := newC01Nodes(t)
 	n.generate(o, rnd, thorough)
 	sb, _ := json.Marshal(o.stats)
 	os.WriteFile(path.Join(outDir, "stats.json"), sb, 0o644)
@@ -1079,7 +1115,8 @@ func TestVerifC01(t *testing.T) {
 
 func newC01Nodes(t *testing.T) *c01Nodes {
 	ctx := audit.TestContext()
-	w := &c01World{t: t, ctx: ctx, ks: nutsCrypto.NewMemoryCryptoInstance(t), keys: map[string]crypto.PublicKey{}, hist: map[string][]c01Version{}, docs: map[string]*did.Document{}}
+	backend := nutsCrypto.NewMemoryStorage()
+	w := &c01World{t: t, ctx: ctx, backend: backend, ks: nutsCrypto.NewTestCryptoInstance(orm.NewTestDatabase(t), backend), keys: map[string]crypto.PublicKey{}, hist: map[string][]c01Version{}, docs: map[string]*did.Document{}}
 	w.ldm = jsonld.NewTestJSONLDManager(t)
 	w.loader = w.ldm.DocumentLoader()
 	T := func(s int64) int64 { return (c01T0 + s) * 1000 }
@@ -1516,7 +1553,7 @@ func (n *c01Nodes) scan(o *c01Out, rnd *rand.Rand, bases []c01Base, thorough boo
 }
 
 // replay re-runs the verification ops of an ops file (documents are carried in the ops)
-func (n *c01Nodes) replay(o *c01Out, file string) {
+func (n *c01Nodes) replay(o *c01Out, file string, prefix string) {
 	data, err := os.ReadFile(file)
 	if err != nil {
 		n.w.t.Fatal(err)
@@ -1539,7 +1576,7 @@ func (n *c01Nodes) replay(o *c01Out, file string) {
 		case "revoke":
 			n.revoke(o, str("id"))
 		case "vc", "vp":
-			c := c01Call{kind: str("op"), text: str("text"), label: str("label"), base: str("base"), mut: str("mut"), path: str("path")}
+			c := c01Call{kind: str("op"), text: str("text"), label: prefix + str("label"), base: prefix + str("base"), mut: str("mut"), path: str("path")}
 			c.allowUntrusted, _ = op["allowUntrusted"].(bool)
 			c.checkSig, _ = op["checkSig"].(bool)
 			if f, ok := op["at"].(float64); ok {
